@@ -692,6 +692,34 @@ func robustStream(r *Run) {
 		}
 	}
 
+	// (1a) a caller may bind anything under the names the renderer uses itself: `forloop` records of every
+	// shape (counters of the right Go type with negative, huge and ordinary values; wrong types), used by
+	// cycle outside and inside loops, by tablerow, and printed
+	{
+		i := func(n int64) *V { return VInt(0, n) }
+		cyc := func(kvs ...[2]*V) *V { return VMap(TStr, TInt(0), kvs...) }
+		recs := []*V{
+			VStrMap(SKV(".cycles", cyc(SKV("", i(-3))))), VStrMap(SKV(".cycles", cyc(SKV("", i(1)), SKV("g", i(5))))),
+			VStrMap(SKV(".cycles", cyc())), VStrMap(SKV(".cycles", cyc(SKV("", i(9223372036854775807))))),
+			VStrMap(SKV(".cycles", VStrMap(SKV("", i(-1))))), VStrMap(SKV(".cycles", i(3))), VStrMap(SKV(".cycles", VNil())),
+			VStrMap(SKV("index", i(-1)), SKV("length", VStr("x")), SKV("first", VNil())), i(7), VStr("forloop"), VAnys(i(1)), VNil(),
+			VMapSlice(SKV(".cycles", cyc(SKV("", i(-3))))), VPtr(VStrMap(SKV(".cycles", cyc(SKV("", i(-3)))))),
+		}
+		tmpls := []string{
+			"{% cycle \"a\", \"b\" %}", "{% cycle \"g\": \"a\", \"b\" %}{% cycle \"a\" %}",
+			"{% for i in (1..3) %}{% cycle \"a\", \"b\" %}{% endfor %}{% cycle \"a\", \"b\" %}",
+			"{{ forloop.index }}|{{ forloop }}|{% for i in (1..2) %}{{ forloop.index }}{% endfor %}|{{ forloop.index }}",
+			"{% tablerow i in (1..3) cols: 2 %}{% cycle 'x', 'y' %}{% endtablerow %}{% cycle 'x' %}",
+			"{% if forloop %}{% cycle 1, 2 %}{% endif %}{% assign forloop = forloop %}{% cycle 1, 2 %}",
+			"{% for i in (1..2) %}{% for j in (1..2) %}{% cycle 'a','b','c' %}{% endfor %}{% cycle 'p','q' %}{% endfor %}",
+		}
+		for _, t := range tmpls {
+			for _, rec := range recs {
+				run(plain, t, map[string]*V{"forloop": rec}, "reserved-names")
+			}
+		}
+	}
+
 	// (1b) the range boundary family (pure templates): extreme endpoints, and lengths around the
 	// array-conversion bound, converted to arrays by filters or iterated lazily by loops
 	const maxI, minI = "9223372036854775807", "-9223372036854775808"
